@@ -130,10 +130,29 @@ pub fn run(ctx: &Ctx) -> Result<(), String> {
         }
     }
 
-    // 1 deviation: every (key, value) on the valid base, both sources; file and env must agree
-    par_for(g.len(), 1, |k, _| {
+    // a second valid base on which every optional key is set to a non-default in-range value
+    // (per-client statistics with an existing writable directory included)
+    let mut full = Written::base(8686);
+    for (k, v) in [("batch_size", "32"), ("status_interval", "10"), ("health_check_port", "8000"), ("fault_percentage", "25"), ("num_workers", "2"), ("client_stats", "on"), ("kms_protection", "plaintext")] {
+        full.set(k, v);
+    }
+    full.set("persistence_directory", &pdir_s);
+    for src in [Source::File, Source::Env] {
+        let out = cfgprobe(&full, src)?;
+        evals.fetch_add(1, Relaxed);
+        if let Some((c, k, m)) = judge(&full, &out, &[("full-base", Want::Accept)]) {
+            ctx.violation(&c, &k, &format!("{:?}", src), json!({"kind":"probe","written":full.to_json(),"source":format!("{:?}", src),"message":m}));
+        }
+    }
+    let bases = [base.clone(), full.clone()];
+    // 1 deviation: every (key, value) on each valid base, both sources; file and env must agree
+    par_for(g.len() * 2, 1, |k2, _| {
+        let (k, bi) = (k2 / 2, k2 % 2);
         let (key, lit, want) = &g[k];
-        let w = with_deviation(&base, key, lit, &pdir_s);
+        if bi == 1 && *key == "client_stats" {
+            return; // the full base already fixes client_stats
+        }
+        let w = with_deviation(&bases[bi], key, lit, &pdir_s);
         let mut outs = vec![];
         for src in [Source::File, Source::Env] {
             match cfgprobe(&w, src) {
@@ -156,7 +175,7 @@ pub fn run(ctx: &Ctx) -> Result<(), String> {
             // an empty literal means "key present but empty" in the file and "variable set to empty" in
             // the environment; both must still lead to the same outcome
             if !same {
-                ctx.violation("file-and-env-differ", key, "1-deviation", json!({"kind":"probe","written":w.to_json(),"key":key,"value":lit,"file":a,"env":b}));
+                ctx.violation("file-and-env-differ", key, "1-deviation", json!({"kind":"probe","written":w.to_json(),"key":key,"value":lit,"base":if bi == 0 {"minimal"} else {"full"},"file":a,"env":b}));
             }
         }
     });
@@ -301,7 +320,7 @@ pub fn run(ctx: &Ctx) -> Result<(), String> {
     ctx.cov("outcome_classes", json!(*classes.lock().unwrap()));
     ctx.cov("exhaustive", json!(true));
     ctx.cov("bound", json!({"deviations": ctx.tier.pick(1, 2), "keys": 10}));
-    ctx.cov("rule", json!("configuration grid: for each documented key a boundary value list (minimum-1, minimum, typical, maximum, maximum+1, type-width wrap points 255/256/300/65535/65536/70000 and their modular images, negatives, non-numeric, empty; seed strings of length 62/63/66, non-hex, upper-case; client_stats spellings; missing required keys; an unknown file key); every (key,value) as ONE deviation from a valid base through the real make_config + is_valid_config in a probe process, from the YAML file and from the environment (thorough: all pairs of numeric deviations); plus the real server binary started on every 1-deviation point. Oracle (reference semantics of the documented keys): outcome is refused, or accepted with every getter equal to the written value; documented in-range values must be accepted; out-of-range/missing/unknown must be refused; file and ENV agree; the real binary refuses exactly what the probe refuses and displays the probe's values."));
+    ctx.cov("rule", json!("configuration grid: for each documented key a boundary value list (minimum-1, minimum, typical, maximum, maximum+1, type-width wrap points 255/256/300/65535/65536/70000 and their modular images, negatives, non-numeric, empty; seed strings of length 62/63/66, non-hex, upper-case; client_stats spellings; missing required keys; an unknown file key); every (key,value) as ONE deviation from each of two valid bases (minimal; every optional key set, incl. per-client statistics with a writable directory) through the real make_config + is_valid_config in a probe process, from the YAML file and from the environment (thorough: all pairs of numeric deviations); plus the real server binary started on every 1-deviation point. Oracle (reference semantics of the documented keys): outcome is refused, or accepted with every getter equal to the written value; documented in-range values must be accepted; out-of-range/missing/unknown must be refused; file and ENV agree; the real binary refuses exactly what the probe refuses and displays the probe's values."));
     ctx.sample(json!({"key":"port","value":"70000","source":"File","expect":"refused"}));
     ctx.sample(json!({"key":"num_workers","value":"4","source":"Env","expect":"accepted, effective 4"}));
     ctx.assume("environment variable names follow the README table's pattern ROUGHENOUGH_<KEY>; num_workers/client_stats/persistence_directory are documented in the ServerConfig trait docs");
